@@ -49,6 +49,7 @@ type runConfig struct {
 	Profile      string
 	Voters       int
 	Nonvoters    int
+	Spares       int // nodes that run but are not in the bootstrap configuration
 	Preseed      bool // bootstrap by pre-seeded storage instead of a ChangeConfig on one node
 	HB           time.Duration
 	PromoteThr   time.Duration
@@ -77,6 +78,9 @@ func drawConfig(t *rt.Tape, p profile) runConfig {
 	c := runConfig{Profile: p.Name}
 	c.Voters = t.Range(rt.StConfig, p.MinVoters, p.MaxVoters)
 	c.Nonvoters = t.Range(rt.StConfig, 0, p.MaxNonvoters)
+	if p.Member > 0 {
+		c.Spares = t.Range(rt.StConfig, 0, 2)
+	}
 	c.Preseed = t.Chance(rt.StConfig, 1, 2)
 	c.HB = pick(t, 200*time.Millisecond, 50*time.Millisecond, 100*time.Millisecond, 500*time.Millisecond, time.Second)
 	c.PromoteThr = pick(t, c.HB, c.HB/4, 4*c.HB)
@@ -101,7 +105,7 @@ func drawConfig(t *rt.Tape, p profile) runConfig {
 	}
 	c.ChunkMode = pick(t, 0, 0, 1, 1, 2)
 	c.StepCost = pick(t, time.Microsecond, 0, 10*time.Microsecond, 100*time.Microsecond)
-	n := c.Voters + c.Nonvoters
+	n := c.Voters + c.Nonvoters + c.Spares
 	for i := 0; i < n+2; i++ {
 		c.ClockPPM = append(c.ClockPPM, int64(t.Range(rt.StConfig, 0, 20)-10)*5000)
 	}
